@@ -103,7 +103,8 @@ func (s *orRuleSetLoader) keyOrObjectEnd(lex lexeme.LexEvent) {
 	case lexeme.ObjectKeyEnd:
 		s.ruleNameLex = lex
 		s.stateFunc = s.valueBegin
-		if s.ruleNameLex.Value().String() == "enum" {
+		// the name may be written in quotes, like every other rule name
+		if s.ruleNameLex.Value().TrimSpaces().Unquote().String() == "enum" {
 			s.stateFunc = s.enumValueBegin
 		}
 	case lexeme.ObjectEnd:
